@@ -611,10 +611,13 @@ def install(ip):
         if not isinstance(a, SArr) or len(a.shape) != 1:
             raise Unsupported('dst of a non 1-D array')
         n = a.shape[0]
-        f = dst_fun(typ)
-        at = array_term(ip, a)
-        nt = to_int(n)
-        res = f(at, nt)
+        # Assumed contract of scipy.fftpack.dst: a function of (type, input array).  Calls are matched by
+        # ordinal between the code run and the contract run; the Comparer proves the matched inputs equal
+        # pointwise, which justifies (by congruence) giving matched calls the same result symbol.
+        calls = ip.st.ext_calls
+        k = len(calls)
+        res = z3.Const('dst%d!call%d' % (typ, k), z3.ArraySort(z3.IntSort(), z3.RealSort()))
+        calls.append(('dst%d' % typ, a.snapshot(ip.st), (n,)))
         return ip.st.new_array((n,), lambda idx: z3.Select(res, to_int(idx[0])))
 
     # spec-language helpers ------------------------------------------------------
